@@ -113,6 +113,7 @@ HISTORY = {
     # depend on the hash seed of the process
     "many_names": (
         "GLOB1 = GLOB2 = GLOB3 = 1\n"
+        "def cased(x, X, xx, Xx, xX, XX, a_b, A_B):\n    def g():\n        nonlocal x, X, xx, Xx, xX, XX, a_b, A_B\n        x += 1\n        return x + X + xx + Xx + xX + XX + a_b + A_B\n    return g()\nprint(cased(1, 2, 3, 4, 5, 6, 7, 8))\n"
         "def f(alpha, beta, gamma, delta, epsilon, zeta, *eta, theta=8, **iota):\n"
         "    def g():\n        nonlocal alpha, beta, gamma, delta, epsilon, zeta, eta, theta, iota\n"
         "        alpha += 1; beta += 1; gamma += 1; delta += 1; epsilon += 1; zeta += 1\n        return alpha + beta + theta + len(eta) + len(iota)\n"
